@@ -386,6 +386,7 @@ func runC10(c *rt.Ctx) {
 		roman.MaxInputLength = oldL
 		c.Require("decorated-valid-text", 1500)
 	}
+	guardedInputs(c, "C10", "roman", []string{"MCMXCIV", "mmxxiv", "IV", "i", "MMMM", "xlii", "DCCCLXXXVIII", "IIII", "VX", "MCMXCIVx", "M", "MM", "MMM", "MMMMM", "MMMMMM", "MMMMMMM", "MMMMMMMM", "MMMMMMMMM", "ABC", "\xff"})
 	c.Require("single-byte-substitution", 100000)
 	c.Require("around-limit", 100)
 }
